@@ -29,6 +29,10 @@ var solverCmds = map[string][]string{
 }
 
 func runSolver(name, file string, timeout time.Duration) (string, string, float64) {
+	return runSolverCtx(context.Background(), name, file, timeout)
+}
+
+func runSolverCtx(parent context.Context, name, file string, timeout time.Duration) (string, string, float64) {
 	cmdv := append([]string{}, solverCmds[name]...)
 	switch name {
 	case "z3-new", "z3":
@@ -37,7 +41,7 @@ func runSolver(name, file string, timeout time.Duration) (string, string, float6
 		cmdv = append(cmdv, fmt.Sprintf("--tlimit=%d", timeout.Milliseconds()))
 	}
 	cmdv = append(cmdv, file)
-	ctx, cancel := context.WithTimeout(context.Background(), timeout+2*time.Second)
+	ctx, cancel := context.WithTimeout(parent, timeout+2*time.Second)
 	defer cancel()
 	t0 := time.Now()
 	cmd := exec.CommandContext(ctx, cmdv[0], cmdv[1:]...)
@@ -63,6 +67,7 @@ func buildQuery(u *Unit, o *Oblig, extra []string) string {
 	var sb strings.Builder
 	sb.WriteString("(set-option :produce-models true)\n(set-logic ALL)\n")
 	sb.WriteString(u.Prelude)
+	sb.WriteString("AXIOMS-PLACEHOLDER\n")
 	for _, a := range u.Assumps {
 		if a.seq < o.seq {
 			sb.WriteString("(assert ")
@@ -84,7 +89,26 @@ func buildQuery(u *Unit, o *Oblig, extra []string) string {
 		sb.WriteString("(get-value (" + strings.Join(ts, " ") + "))\n")
 	}
 	sb.WriteString("(get-model)\n")
-	return sb.String()
+	text := sb.String()
+	ax := ""
+	if u.g != nil {
+		for _, a := range u.g.cs.Axioms {
+			t := a.Text
+			used := false
+			for n := range u.g.cs.UFuncs {
+				if strings.Contains(t, n) {
+					t = replaceWord(t, n, "|uf!"+n+"|")
+					if strings.Contains(text, "|uf!"+n+"|") {
+						used = true
+					}
+				}
+			}
+			if used {
+				ax += "(assert " + t + ") ; axiom " + a.Name + "\n"
+			}
+		}
+	}
+	return strings.Replace(text, "AXIOMS-PLACEHOLDER\n", ax, 1)
 }
 
 type job struct {
@@ -127,41 +151,40 @@ func solveOne(j *job, dir string, timeout time.Duration) {
 	os.WriteFile(file, []byte(q), 0o644)
 	res := &SolveResult{File: file, Size: len(q)}
 	j.res = res
-	first := timeout
-	if first > 6*time.Second {
-		first = 6 * time.Second
+	// stage 1: z3-new alone for a short while (most obligations finish in milliseconds)
+	t0 := time.Now()
+	st, out, secs := runSolver("z3-new", file, 2*time.Second)
+	res.Tried = append(res.Tried, fmt.Sprintf("z3-new:%s:%.2fs", st, secs))
+	if st == "unsat" || st == "sat" {
+		res.Status, res.Solver, res.Output, res.Secs = st, "z3-new", out, time.Since(t0).Seconds()
+		return
 	}
-	order := []string{"z3-new", "cvc5", "z3"}
-	total := 0.0
-	var lastOut string
-	for i, s := range order {
-		to := timeout
-		if i == 0 {
-			to = first
-		}
-		st, out, secs := runSolver(s, file, to)
-		total += secs
-		res.Tried = append(res.Tried, fmt.Sprintf("%s:%s:%.2fs", s, st, secs))
-		if st == "unsat" || st == "sat" {
-			res.Status, res.Solver, res.Output = st, s, out
-			res.Secs = total
+	// stage 2: race the three solvers with the full timeout
+	type ans struct {
+		solver, st, out string
+		secs            float64
+	}
+	ch := make(chan ans, 3)
+	ctx, cancel := context.WithCancel(context.Background())
+	defer cancel()
+	for _, s := range []string{"z3-new", "cvc5", "z3"} {
+		go func(s string) {
+			st, out, secs := runSolverCtx(ctx, s, file, timeout)
+			ch <- ans{s, st, out, secs}
+		}(s)
+	}
+	lastOut := out
+	for i := 0; i < 3; i++ {
+		a := <-ch
+		res.Tried = append(res.Tried, fmt.Sprintf("%s:%s:%.2fs", a.solver, a.st, a.secs))
+		if a.st == "unsat" || a.st == "sat" {
+			res.Status, res.Solver, res.Output, res.Secs = a.st, a.solver, a.out, time.Since(t0).Seconds()
+			cancel()
 			return
 		}
-		lastOut = out
+		lastOut = a.out
 	}
-	// last resort: z3-new with the full timeout if the first attempt was cut short
-	if first < timeout {
-		st, out, secs := runSolver("z3-new", file, timeout)
-		total += secs
-		res.Tried = append(res.Tried, fmt.Sprintf("z3-new:%s:%.2fs", st, secs))
-		if st == "unsat" || st == "sat" {
-			res.Status, res.Solver, res.Output = st, "z3-new", out
-			res.Secs = total
-			return
-		}
-		lastOut = out
-	}
-	res.Status, res.Solver, res.Output, res.Secs = "unknown", "all", lastOut, total
+	res.Status, res.Solver, res.Output, res.Secs = "unknown", "all", lastOut, time.Since(t0).Seconds()
 }
 
 // modelValue extracts the value of a constant from a z3/cvc5 model text.
@@ -225,4 +248,22 @@ func readSexp(s string) (string, string) {
 		}
 	}
 	return s, ""
+}
+
+func replaceWord(s, w, by string) string {
+	var sb strings.Builder
+	for i := 0; i < len(s); {
+		if strings.HasPrefix(s[i:], w) {
+			before := i == 0 || strings.ContainsRune(" ()\n\t", rune(s[i-1]))
+			after := i+len(w) >= len(s) || strings.ContainsRune(" ()\n\t", rune(s[i+len(w)]))
+			if before && after {
+				sb.WriteString(by)
+				i += len(w)
+				continue
+			}
+		}
+		sb.WriteByte(s[i])
+		i++
+	}
+	return sb.String()
 }
